@@ -415,7 +415,7 @@ class Model:
                 self.queue = []
                 ids = [r[2] for r in pending]; evs = []
                 while pos < len(guards) and guards[pos]['pend'] == ids: evs.append(guards[pos]); pos += 1
-                if not evs: self.notes.append('guards-missing')
+                if not evs: self.notes.append('round-without-guards')   # nothing to leave or enter: approved silently
                 for e in evs:
                     for q in e['issue']: self.enqueue(q)
                 vetoed = any(e['cancel'] for e in evs)
@@ -482,11 +482,18 @@ class Model:
         act = ['0'] * n; res = ['0'] * n; sub = ['.'] * n
         for s in range(n):
             if self.is_active(s): act[s] = '1'
+            # resumable: decided by the nearest composite ancestor (states inside a resumable orthogonal sub-state count too)
+            node = s
+            while self.n[node]['parent'] >= 0:
+                par = self.n[node]['parent']
+                if self.kind(par) == 'C':
+                    rr = self.res[par]
+                    if rr is not None and rr != INVALID and rr == self.n[node]['prong']: res[s] = '1'
+                    break
+                node = par
         for r in self.compo:
             a = self.act[r] if self.is_active(r) else None
             sub[r] = '-' if a is None or a == INVALID else chr(48 + a)
-            rr = self.res[r]
-            if rr is not None and rr != INVALID and rr < len(self.kids(r)): res[self.kids(r)[rr]] = '1'
         return ''.join(act), ''.join(res), ''.join(sub)
     def resync(self, act, res):
         """adopt the observed configuration after a mismatch so that one defect does not cascade"""
